@@ -63,17 +63,17 @@ def t_XLERROR(t):
 
 
 def t_ABSOLUTE_CELL(t):
-    r'\$[A-Za-z]+\$[0-9]+'
+    r'\$[A-Za-z]+\$[1-9][0-9]*'
     return t
 
 
 def t_MIXED_CELL(t):
-    r'(\$[A-Za-z]+[0-9]+)|([A-Za-z]+\$[0-9]+)'
+    r'(\$[A-Za-z]+[1-9][0-9]*)|([A-Za-z]+\$[1-9][0-9]*)'
     return t
 
 
 def t_RELATIVE_CELL(t):
-    r'[A-Za-z]+[0-9]+(?![A-Za-z_0-9])'
+    r'[A-Za-z]+[1-9][0-9]*(?![A-Za-z_0-9])'
     return t
 
 
